@@ -10,6 +10,12 @@ from checks_codec import short
 NET_ENV = dict(core.ENV, SSL_CERT_FILE=os.path.join(core.ROOT, "tls", "bundle.crt"), VERIF_TLS_DIR=os.path.join(core.ROOT, "tls"))
 
 
+# server identities of other key / signature kinds (tls/gen.sh): Ed25519 leaf from an Ed25519 CA, RSA leaf from the Ed25519 CA,
+# ECDSA P-256 leaf from the RSA CA - all trusted and matching; an Ed25519 self-signed one nobody trusts.  What kind of key or
+# signature a certificate carries is not a setting.
+CERT_CLASS = {"edmatch": "match", "mixmatch": "match", "ecmatch": "match", "edself": "untrusted", "weak": "untrusted"}
+
+
 def spec_cell(tls, verify, srv, cert):
     """what the property demands, written down independently of the Coq model"""
     if not tls:
@@ -18,7 +24,7 @@ def spec_cell(tls, verify, srv, cert):
         return "refused"
     if not verify:
         return "tls"
-    return "tls" if cert == "match" else "refused"
+    return "tls" if CERT_CLASS.get(cert, cert) == "match" else "refused"
 
 
 def classify(obs):
@@ -81,6 +87,16 @@ def check_C13(chk, tier, seed):
         for (tls, verify, srv, cert) in ((0, 0, "plain", "match"), (0, 1, "tls", "match"), (1, 1, "tls", "match"), (1, 0, "plain", "match")):
             cases.append(f"TLS {tls} {verify} {srv} {cert} host MARKP{port}{tls}{verify}q{seed % 1000} port={port}")
             meta.append((tls, verify, srv, cert, "host"))
+    for verify in (0, 1):
+        for cert in ("edmatch", "mixmatch", "ecmatch", "edself"):
+            for addr in ("host", "ip"):
+                cases.append(f"TLS 1 {verify} tls {cert} {addr} MARKK{verify}{cert[:3]}{addr[0]}q{seed % 1000}")
+                meta.append((1, verify, "tls", cert, addr))
+    # a slow path: the server's first flight reaches the client 6 s late (a relay holds it).  How long a handshake takes is not a
+    # setting: the acceptable certificate is accepted, verification off accepts any
+    for (verify, cert) in ((1, "match"), (0, "match"), (0, "untrusted"), (1, "untrusted")):
+        cases.append(f"TLS 1 {verify} tls {cert} host MARKH{verify}{cert[0]}q{seed % 1000} hold=6000")
+        meta.append((1, verify, "tls", cert, "host"))
     n_main = len(cases)
     # verification switched off means off: a trust file that is missing or is not a certificate file at all must not matter
     for bad_trust in ("/nonexistent/dir/ca.pem", os.path.join(core.ROOT, "tls", "gen.sh")):
@@ -99,7 +115,7 @@ def check_C13(chk, tier, seed):
     impl = [merged[i] for i in range(n_main)]
     for j, bad_trust in enumerate(("/nonexistent/dir/ca.pem", os.path.join(core.ROOT, "tls", "gen.sh"))):
         impl += core.run_sharded([eng.harness, "codec"], eng.prelude, cases[n_main + 6 * j: n_main + 6 * (j + 1)], shards=3, timeout=600, env=dict(NET_ENV, SSL_CERT_FILE=bad_trust))
-    mcases = [f"TLSCELL {t} {v} {s} {'untrusted' if c == 'weak' else c} {a} x33383638" for (t, v, s, c, a) in meta]
+    mcases = [f"TLSCELL {t} {v} {s} {CERT_CLASS.get(c, c)} {a} x33383638" for (t, v, s, c, a) in meta]
     model = eng.ask_model(mcases)
     if tier == "thorough":
         # the whole table once more with the library and harness built in the release profile (no debug assertions,
@@ -138,6 +154,25 @@ def check_C13(chk, tier, seed):
                 chk.corr_break("outcome differs from the model's table", dict(case=c, impl=short(im), model=short(mo)))
         if i % max(1, len(cases) // 6) == 0:
             chk.sample(dict(case=c, impl=im, P=ok))
+    # the FIRST connection the client makes is torn down right after its first octets (a middlebox, a peer restarting); whatever
+    # the client does next - give up, or try again - the settings still decide: a certificate that verification refuses stays
+    # refused, nothing goes out in clear.  (A client that gives up where a session would have been acceptable is right too.)
+    ccases, cmeta = [], []
+    for verify in (0, 1):
+        for cert in ("match", "wrongname", "untrusted"):
+            for addr in ("host", "ip"):
+                ccases.append(f"TLS 1 {verify} tls {cert} {addr} MARKC{verify}{cert[0]}{addr[0]}q{seed % 1000} cutfirst")
+                cmeta.append((1, verify, "tls", cert, addr))
+    cout = core.run_sharded([eng.harness, "codec"], eng.prelude, ccases, shards=6, timeout=600, env=NET_ENV)
+    for c, (tls, verify, srv, cert, addr), im in zip(ccases, cmeta, cout):
+        chk.case(c, True)
+        chk.validated += 1
+        chk.count("first-connection-cut")
+        want = spec_cell(tls, verify, srv, cert)
+        got = classify(im) if im.startswith("TLS") else "other"
+        if not (got == "refused" or (want == "tls" and got == "tls")):
+            chk.violation(f"after its first connection attempt was cut off, the client went on against the settings: expected refused{' or tls' if want == 'tls' else ''}, observed {got}",
+                          dict(case=c, impl=short(im), expected=want))
     # a plain-text peer whose FIRST message is something a TLS-identity server might be tempted to treat specially: an ordinary
     # request, capabilities exchanges announcing in-band security (Inband-Security-Id 0 / 1, RFC 3588 style), a watchdog, a
     # disconnect request - none may reach the handler or be answered in clear
